@@ -12,6 +12,10 @@ from pyvc.harness import harness, both_backends, new_obj, OpaqueLog
 from pyvc import models as M
 from contracts import spec_wire as W
 
+# the two readers of the fragmenter generator, by role (robust against renaming)
+MREADER = (('assigned_call', 'BytesIO', 'self.metadata'),)
+DREADER = (('assigned_call', 'BytesIO', 'self.data'),)
+
 FF = 'rsocket/frame_fragmenter.py::FrameFragmenter'
 ITER = FF + '.__iter__'
 FRAG = 'rsocket/fragment.py::Fragment'
@@ -100,14 +104,14 @@ def frag_specs(E, g, data, md, fs, hdr, lh):
     # ---- loop 0: metadata
     def havoc0(ctx):
         g.havoc(E)
-        ctx.env.vars['metadata_reader'].attrs['pos'] = E.fresh_int('mr.pos', 0)
+        ctx.local('metadata_reader', *MREADER).attrs['pos'] = E.fresh_int('mr.pos', 0)
 
     def inv0(ctx):
         s = ctx.self
         mread = I(s.attrs['_metadata_read_length'])
         dread = I(s.attrs['_data_read_length'])
         isf = B(E.truth(s.attrs['_is_first']))
-        mr, dr = ctx['metadata_reader'], ctx['data_reader']
+        mr, dr = ctx.local('metadata_reader', *MREADER), ctx.local('data_reader', *DREADER)
         return common(ctx) + [
             ('ghost: emitted metadata = read metadata = reader position',
              z3.And(I(g.md_emitted) == mread, I(mr.attrs['pos']) == mread, mread >= 0, mread <= mlen)),
@@ -131,14 +135,14 @@ def frag_specs(E, g, data, md, fs, hdr, lh):
     # ---- loop 1: data
     def havoc1(ctx):
         g.havoc(E)
-        ctx.env.vars['data_reader'].attrs['pos'] = E.fresh_int('dr.pos', 0)
+        ctx.local('data_reader', *DREADER).attrs['pos'] = E.fresh_int('dr.pos', 0)
 
     def inv1(ctx):
         s = ctx.self
         mread = I(s.attrs['_metadata_read_length'])
         dread = I(s.attrs['_data_read_length'])
         isf = B(E.truth(s.attrs['_is_first']))
-        dr = ctx['data_reader']
+        dr = ctx.local('data_reader', *DREADER)
         return common(ctx) + [
             ('all metadata emitted', z3.And(I(g.md_emitted) == mlen, mread == mlen)),
             ('ghost: emitted data = read data = reader position, strictly inside',
